@@ -244,4 +244,153 @@ theorem referenceTag_sat {st : St} (hinv : st.Inv) (name : String) (useVid : Vid
             hinv.stack_prefixed, hinv.out_ne⟩, rfl, rfl, rfl, rfl, rfl, rfl, rfl, rfl⟩
     · simp [hinv]
 
+
+/-- Only the tag bookkeeping (`imported` contents, `used_tags`) may differ. -/
+structure St.TagOnly (st st' : St) : Prop where
+  path : st'.path = st.path
+  vidStack : st'.vidStack = st.vidStack
+  outStack : st'.outStack = st.outStack
+  nextVid : st'.nextVid = st.nextVid
+  nextEid : st'.nextEid = st.nextEid
+  prefixes : st'.prefixes = st.prefixes
+  tags : st'.tags = st.tags
+  globalOutputs : st'.globalOutputs = st.globalOutputs
+
+theorem St.TagOnly.refl (st : St) : St.TagOnly st st := ⟨rfl, rfl, rfl, rfl, rfl, rfl, rfl, rfl⟩
+
+theorem St.TagOnly.trans {a b c : St} (h1 : St.TagOnly a b) (h2 : St.TagOnly b c) : St.TagOnly a c :=
+  ⟨h2.path.trans h1.path, h2.vidStack.trans h1.vidStack, h2.outStack.trans h1.outStack,
+   h2.nextVid.trans h1.nextVid, h2.nextEid.trans h1.nextEid, h2.prefixes.trans h1.prefixes,
+   h2.tags.trans h1.tags, h2.globalOutputs.trans h1.globalOutputs⟩
+
+theorem referenceTag_sat' {st : St} (hinv : st.Inv) (name : String) (useVid : Vid) :
+    Sat (fun _ => False) (st.referenceTag name useVid) (fun r => r.1.Inv ∧ St.TagOnly st r.1) :=
+  (referenceTag_sat hinv name useVid).mono fun _ h =>
+    ⟨h.1, ⟨h.2.1, h.2.2.1, h.2.2.2.1, h.2.2.2.2.1, h.2.2.2.2.2.1, h.2.2.2.2.2.2.1,
+      h.2.2.2.2.2.2.2.1, h.2.2.2.2.2.2.2.2⟩⟩
+
+/-- The panic sites of `make_filter_expr` that inputs can reach: F-12 and N-6. -/
+def FilterSite (s : Site) : Prop := s = .asTagUnwrap ∨ s = .oneOfListDepth
+
+theorem inferVariableType_sat (left : FTy) (op : BinOp) :
+    Sat (fun s => s = .oneOfListDepth) (inferVariableType left (.bin op)) (fun _ => True) := by
+  unfold inferVariableType
+  cases op.cls <;> simp only
+  · trivial
+  · trivial
+  · split <;> trivial
+  · split
+    · trivial
+    · rfl
+  · trivial
+
+theorem makeFilterExpr_sat {st : St} (hinv : st.Inv) (vid : Vid) (ty : FTy) (fd : FilterDirective) :
+    Sat FilterSite (makeFilterExpr st vid ty fd) (fun r => r.1.Inv ∧ St.TagOnly st r.1) := by
+  unfold makeFilterExpr
+  split
+  · split <;> exact ⟨hinv, St.TagOnly.refl _⟩
+  · split <;> exact ⟨hinv, St.TagOnly.refl _⟩
+  · rename_i op varName
+    have hinf := inferVariableType_sat ty op
+    cases hi : inferVariableType ty (.bin op) with
+    | panic s =>
+      rw [hi] at hinf
+      exact Or.inr hinf
+    | err e => exact ⟨hinv, St.TagOnly.refl _⟩
+    | ok varType =>
+      simp only
+      refine Sat.bind ((binaryOperandTypesValid_variable (name := varName) hi).monoK
+        (fun s h => Or.inl h.1)) fun errs _ => ?_
+      split <;> exact ⟨hinv, St.TagOnly.refl _⟩
+  · rename_i op tagName
+    refine Sat.bind ((referenceTag_sat' hinv tagName vid).monoK (fun _ h => h.elim)) fun r hr => ?_
+    split
+    · exact hr
+    · exact hr
+    · exact hr
+    · rename_i entry _
+      refine Sat.bind (Sat.of_noPanic (binaryOperandTypesValid_tag op ty entry.field tagName))
+        fun errs _ => ?_
+      split <;> exact hr
+
+theorem filtersLoop_sat (vid : Vid) (ty : FTy) (fds : List FilterDirective) :
+    ∀ {st : St} (errs : List FrontErr) (uses : List (String × FTy)), st.Inv →
+    Sat FilterSite (filtersLoop vid ty st errs uses fds)
+      (fun r => r.1.Inv ∧ St.TagOnly st r.1 ∧ ∃ more, r.2.1 = errs ++ more) := by
+  induction fds with
+  | nil => intro st errs uses hinv; exact ⟨hinv, St.TagOnly.refl _, [], by simp⟩
+  | cons fd rest ih =>
+    intro st errs uses hinv
+    unfold filtersLoop
+    refine Sat.bind (makeFilterExpr_sat hinv vid ty fd) fun r hr => ?_
+    split
+    · exact (ih errs _ hr.1).mono fun _ h => ⟨h.1, hr.2.trans h.2.1, h.2.2⟩
+    · exact (ih errs _ hr.1).mono fun _ h => ⟨h.1, hr.2.trans h.2.1, h.2.2⟩
+    · rename_i es _
+      exact (ih (errs ++ es) _ hr.1).mono fun _ h =>
+        ⟨h.1, hr.2.trans h.2.1, by obtain ⟨m, hm⟩ := h.2.2; exact ⟨es ++ m, by simp [hm]⟩⟩
+
+theorem vertexFilters_sat (props : List PropRec) (vid : Vid) (todo : List PropRec)
+    (hsub : ∀ p ∈ todo, p ∈ props) :
+    ∀ {st : St} (errs : List FrontErr) (uses : List (String × FTy)), st.Inv →
+    Sat FilterSite (vertexFilters props vid st errs uses todo)
+      (fun r => r.1.Inv ∧ St.TagOnly st r.1 ∧ ∃ more, r.2.1 = errs ++ more) := by
+  induction todo with
+  | nil => intro st errs uses hinv; exact ⟨hinv, St.TagOnly.refl _, [], by simp⟩
+  | cons p rest ih =>
+    intro st errs uses hinv
+    have ih' := ih (fun q hq => hsub q (List.mem_cons_of_mem _ hq))
+    unfold vertexFilters
+    split
+    · exact ih' errs uses hinv
+    · split
+      · rename_i hnone
+        -- `properties.get(&(vid, name)).unwrap()`: the key was taken from the map itself
+        exfalso
+        have hp := hsub p (List.mem_cons_self ..)
+        rw [List.find?_eq_none] at hnone
+        have := hnone p hp
+        simp at this
+      · rename_i q _
+        refine Sat.bind (filtersLoop_sat vid q.ty _ errs uses hinv) fun r hr => ?_
+        obtain ⟨m1, hm1⟩ := hr.2.2
+        exact (ih' r.2.1 r.2.2 hr.1).mono fun _ h =>
+          ⟨h.1, hr.2.1.trans h.2.1, by obtain ⟨m, hm⟩ := h.2.2; exact ⟨m1 ++ m, by simp [hm, hm1]⟩⟩
+
+/-- The type name `make_vertex` gives a vertex when it succeeds. -/
+def VertexRec.postType (v : VertexRec) : String := v.coercedTo.getD v.uncoercedType
+
+theorem makeVertex_sat (S : SchemaView) (props : List PropRec) {st : St} (hinv : st.Inv)
+    (v : VertexRec) :
+    Sat FilterSite (makeVertex S props st v)
+      (fun r => r.1.Inv ∧ St.TagOnly st r.1 ∧
+        (∀ tn us, r.2 = .ok (tn, us) → tn = v.postType) ∧
+        (∀ es, r.2 = .error es → es ≠ [])) := by
+  unfold makeVertex
+  unfold St.isComponentRoot
+  split
+  · rename_i hnone
+    exact absurd (List.getLast?_eq_none_iff.mp hnone) hinv.path_ne
+  · simp only [bind_ok]
+    split
+    · refine ⟨hinv, St.TagOnly.refl _, by intro tn us h; cases h, by intro es h; cases h; simp⟩
+    · rename_i tn htn
+      refine Sat.bind (vertexFilters_sat props v.vid props (fun _ h => h) _ [] hinv) fun r hr => ?_
+      split
+      · refine ⟨hr.1, hr.2.1, ?_, by intro es h; cases h⟩
+        intro tn' us h
+        cases h
+        unfold VertexRec.postType
+        cases hc : v.coercedTo with
+        | none => simp [hc] at htn; simp [htn]
+        | some c =>
+          simp [hc] at htn
+          simp [htn.2]
+      · rename_i hne
+        refine ⟨hr.1, hr.2.1, by intro tn' us h; cases h, ?_⟩
+        intro es h
+        cases h
+        intro h0
+        simp [h0] at hne
+
 end TF.FE
